@@ -10,13 +10,13 @@ JOBS = min(14, os.cpu_count() or 4)
 
 # profiles: (name, quick cases, thorough cases)
 SPROPS = {
-    "C02": dict(profiles=[("fast", 250, 20000), ("list", 350, 30000)], tags={"C02"}, corpus=True,
+    "C02": dict(profiles=[("fast", 250, 20000), ("list", 350, 30000), ("aba", 150, 12000)], tags={"C02"}, corpus=True,
                 what="exclusive, intact live ranges under controlled thread interleavings"),
-    "C07": dict(profiles=[("list", 500, 40000), ("fast", 100, 8000)], tags={"C07"}, corpus=True,
+    "C07": dict(profiles=[("list", 500, 40000), ("fast", 100, 8000), ("aba", 150, 12000)], tags={"C07"}, corpus=True,
                 what="every operation finishes under fair schedules"),
-    "C12": dict(profiles=[("list", 300, 25000), ("fast", 150, 10000), ("refs", 250, 20000)], tags={"C12", "C13"}, corpus=True,
+    "C12": dict(profiles=[("list", 300, 25000), ("fast", 150, 10000), ("refs", 250, 20000), ("aba", 100, 8000)], tags={"C12", "C13"}, corpus=True,
                 what="happens-before for recycled memory and teardown"),
-    "C06": dict(profiles=[("list", 60, 4000), ("fast", 30, 2000)], tags={"C06"}, corpus=True, crash=True,
+    "C06": dict(profiles=[("list", 60, 4000), ("fast", 30, 2000), ("aba", 20, 1500)], tags={"C06"}, corpus=True, crash=True,
                 what="crash at any point leaves a reopenable, consistent file"),
 }
 
@@ -186,7 +186,81 @@ def hb_races(out_path):
             cur.append(l)
     return res
 
+def sweep_variants(case_lines, impl_lines, max_k=48, napoints=False):
+    """single-preemption schedules for one generated case: a victim thread is granted k steps, then every other
+    thread runs to completion (in tid order, and in reverse tid order), then the victim resumes (the fair
+    round-robin finishes whatever is left). Exactly the shape of a lost-update / ABA / stale-read window."""
+    progs = parse_case_file(case_lines)
+    tids = sorted(progs)
+    if len(tids) < 2: return []
+    nev = {t: 0 for t in tids}
+    for l in impl_lines:
+        if l.startswith("ev "):
+            m = re.match(r"ev t=(\d+)", l)
+            if m and int(m.group(1)) in nev: nev[int(m.group(1))] += 1
+        elif napoints and l.startswith("na ") and "src=clear" in l:
+            m = re.match(r"na t=(\d+)", l)
+            if m and int(m.group(1)) in nev: nev[int(m.group(1))] += 1
+    head = [l for l in case_lines if not l.startswith(("sched", "end", "napoints"))]
+    if napoints: head = head + ["napoints"]
+    out = []
+    for v in tids:
+        others = [t for t in tids if t != v]
+        ks = list(range(0, nev[v] + 1))
+        if len(ks) > max_k:
+            step = len(ks) / max_k
+            ks = sorted({ks[int(i * step)] for i in range(max_k)})
+        orders = [others] if len(others) == 1 else [others, others[::-1]]
+        for od in orders:
+            for k in ks:
+                sch = [str(v)] * k
+                for o_ in od:
+                    sch += [str(o_)] * (nev[o_] * 2 + 12)
+                out.append(head + ["sched " + " ".join(sch), "end"])
+    return out
+
+def run_cases(prefix, cases, model=True):
+    binp = vlib.harness_bin("sched")
+    with open(prefix + ".cases", "w") as f:
+        for c in cases: f.write("\n".join(c) + "\n")
+    q = vlib.run([binp, "run", prefix + ".cases"], timeout=7200)
+    open(prefix + ".impl", "w").write(q.stdout)
+    if not model:
+        return q.returncode, True
+    try:
+        with open(prefix + ".cases") as fin, open(prefix + ".model", "w") as fout:
+            subprocess.run([vlib.DRIVER, "conc"], stdin=fin, stdout=fout, stderr=subprocess.PIPE, text=True)
+    except OSError:
+        return q.returncode, False
+    return q.returncode, True
+
 def gen_shard(args):
+    r = gen_shard0(args[:5])
+    nsweep = args[5] if len(args) > 5 else 0
+    extra = []
+    if nsweep and not args[4]:
+        prefix = args[3]
+        try:
+            cases = split_cases(open(prefix + ".cases").read().splitlines())
+            impl = split_cases(open(prefix + ".impl").read().splitlines())
+            var, nav = [], []
+            for k, cl in enumerate(cases[:nsweep]):
+                cl = [l for l in cl if l.strip() and not l.startswith("#")]
+                if k < len(impl) and cl:
+                    var += sweep_variants(cl, impl[k])
+                    # implementation-only search: the arena's zero-fill as a scheduling point of its own
+                    if any("src=clear" in l for l in impl[k]): nav += sweep_variants(cl, impl[k], 32, True)
+            if var:
+                run_cases(prefix + "_sw", var)
+                extra.append(prefix + "_sw")
+            if nav:
+                run_cases(prefix + "_na", nav, model=False)
+                extra.append(prefix + "_na")
+        except OSError as e:
+            log("sweep", prefix, e)
+    return r[0], r[1], r[2], extra
+
+def gen_shard0(args):
     profile, seed, cases, prefix, crash = args
     binp = vlib.harness_bin("sched")
     if not crash:
@@ -234,14 +308,16 @@ def sched_stage(prop, P, tags, tier, seed, replay, wdir, S, F):
     if not replay:
         jobs = []
         for (profile, q, th) in P["profiles"]:
-            total = q if tier == "quick" else th
+            total = q if tier == "quick" else (min(th, q * 8) if tier == "search" else th)
             per = max(1, total // JOBS)
             for s in range(JOBS):
-                jobs.append((profile, seed * 100003 + s * 7919 + sum(map(ord, profile)), per, os.path.join(wdir, f"{profile}_{s}"), bool(P.get("crash"))))
+                nsw = {"quick": P.get("sweep", (2, 40))[0], "search": 16}.get(tier, P.get("sweep", (2, 40))[1])
+                jobs.append((profile, seed * 100003 + s * 7919 + sum(map(ord, profile)), per, os.path.join(wdir, f"{profile}_{s}"), bool(P.get("crash")), nsw))
         with cf.ThreadPoolExecutor(max_workers=JOBS) as ex:
-            for prefix, rc, ok in ex.map(gen_shard, jobs):
+            for prefix, rc, ok, extra in ex.map(gen_shard, jobs):
                 if rc != 0 or not ok: log(f"shard {prefix}: rc={rc} model_ok={ok}")
                 streams.append(prefix)
+                streams += extra
     n_cases = n_lines = n_events = 0
     mism, mon = [], []
     classes = set(); samples = []
@@ -250,12 +326,13 @@ def sched_stage(prop, P, tags, tier, seed, replay, wdir, S, F):
         try:
             cases = split_cases(open(pre + ".cases").read().splitlines())
             impl = split_cases(open(pre + ".impl").read().splitlines())
-            model = split_cases(open(pre + ".model").read().splitlines())
+            impl_only = pre.endswith("_na")
+            model = impl if impl_only else split_cases(open(pre + ".model").read().splitlines())
         except OSError as e:
             log("missing", pre, e); continue
         cases = [[l for l in c if l.strip() and not l.startswith("#")] for c in cases]
         cases = [c for c in cases if c]
-        races = hb_races(pre + ".impl") if ("C12" in tags) else []
+        races = hb_races(pre + ".impl") if ("C12" in tags and not impl_only) else []
         for k, cl in enumerate(cases):
             il = impl[k] if k < len(impl) else []
             ml = model[k] if k < len(model) else []
@@ -321,6 +398,13 @@ def check(prop, tier, seed, replay, t0, chk):
         return 1
     mism, mon, n_cases, n_lines, n_events, classes, samples, feat = sched_stage(prop, P, tags, tier, seed, replay, wdir, S, F)
     known = [k for k in vlib.load_known() if k["property"] == prop]
+    kn = {kf["sig"] for kf in known}
+    if (mism or not pinfo["proof_ok"]) and not [v for (_, _, _, v) in mon if v[1] not in kn] and tier == "quick" and not replay:
+        # the property is no longer shown to hold: search harder for a concrete failing schedule before giving up
+        log(f"{prop}: proof/correspondence broken and no failing input yet: escalating the schedule search")
+        wdir2 = os.path.join(wdir, "search"); os.makedirs(wdir2, exist_ok=True)
+        m2, mon2, c2, l2, e2, cl2, _, _ = sched_stage(prop, P, tags, "search", seed + 7, None, wdir2, S, F)
+        mism += m2; mon += mon2; n_cases += c2; n_lines += l2; n_events += e2; classes |= cl2
     violations, known_lines, seen = [], [], set()
     for (pre, k, cl, v) in mon:
         p_, sig, msg = v
